@@ -294,8 +294,13 @@ def run_asjson_graphs(case):
     def h(*a):
         raise TO()
     signal.signal(signal.SIGALRM, h)
+    import enum
+
+    class Colour(enum.Enum):
+        RED = 1
+    LEAVES = ['text', 7, 2.5, None, True, GNode, int, Colour.RED, frozenset({1}), b'x', (1, 'a'), 10 ** 30]
     bad = []
-    for g in case['graphs']:
+    for gi, g in enumerate(case['graphs']):
         kind, kids = g['kind'], g['kids']
         n = len(kind)
         objs = []
@@ -313,6 +318,9 @@ def run_asjson_graphs(case):
                     setattr(objs[i], f'c{j}', child)
             if kind[i] == 'dict':
                 objs[i]['leaf'] = 'text'
+                # a second leaf: the kinds of scalar-like values parse results carry (whatever semantic actions return) - must come
+                # out as something json.dumps accepts
+                objs[i]['leaf2'] = LEAVES[(gi + i) % len(LEAVES)]
         signal.alarm(5)
         try:
             out = asjson(objs[0])
